@@ -155,6 +155,16 @@ def main(argv=None):
         for v in res.get("violations", []):
             bounded_violations.append(v)
 
+    # ---------------------------------------------------------------- mutation self-test (thorough tier, evidence only)
+    mutation = None
+    if tier == "thorough" and os.environ.get("PYVC_MUTATION_BUDGET", "600") != "0":
+        try:
+            from . import mutate
+            mutation = mutate.run(pid, [r.qualname for r in reports if not r.unsupported and not r.error],
+                                  budget_s=int(os.environ.get("PYVC_MUTATION_BUDGET", "600")), seed=seed)
+        except Exception as e:  # never a verdict
+            mutation = {"error": f"{type(e).__name__}: {e}"}
+
     # ---------------------------------------------------------------- known findings
     known = [k for k in load_known_findings() if k.get("property") == pid and k.get("kind", "finding") == "finding"]
     printed_known = []
@@ -285,6 +295,7 @@ def main(argv=None):
                 "infeasible_paths_detected_late": sum(1 for c in canaries if c.status == "discharged"),
             },
             "bounded_parts": bounded_results,
+            "mutation_self_test_of_the_contracts": mutation,
             "not_discharged": sorted({ob.name for ob in failing})[:40],
             "undecided": undecided,
             "known_findings_printed": printed_known,
